@@ -7,14 +7,14 @@
     writeRecord:      8 header bytes (big endian) ++ content ++ pad[:PaddingLength]           -> `frame`
     streamWriter.Write: split p into pieces of at most maxWrite=65500, one record each       -> `streamWrite`
     encodeSize:       size>127 -> 4 bytes big endian of size|1<<31, else 1 byte               -> `encSize`
-    writePairs:       for k,v := range pairs { m := 8+len(k)+len(v); if m>maxWrite { v = v[:maxWrite-8-len(k)] } (PANICS if negative)
-                        encode sizes; m = n+len(k)+len(v); if nn+m>maxWrite { w.Flush(); nn=0 }; nn+=m; write sizes,k,v }
-                      w.Close()  (Flush, then an empty record)                                -> `writePairsLoop`
+    writePairs (after fix c874d7d: no truncation): for k,v := range pairs { n := encodeSize(k)+encodeSize(v); m := n+len(k)+len(v);
+                        if nn+m > maxWrite { w.Flush(); nn = 0 }; nn += m; w.Write(b[:n]); w.WriteString(k); w.WriteString(v) }
+                      w.Close()  (Flush, then an empty record)                                -> `writePairsBW`
+    the bfe_bufio.Writer (65500 bytes) in between is modelled call by call (`BW`): a pair larger than the buffer spills
+    over into several sink calls, i.e. a name-value pair may span records
     Do:               BEGIN_REQUEST{role=1,flags=0}; writePairs(PARAMS); io.Copy(stdin writer, body); Close -> `encodeRequest`
     record.read / streamReader.Read (the content of EVERY record that is not END_REQUEST is delivered) -> `readStream`
-  Abstractions (trusted base, exercised by the correspondence run): the bufio.Writer between writePairs / io.Copy
-  and streamWriter only appends while the data fits (theorem `C55_buffer_fits` shows it always fits in writePairs)
-  and hands full 65500-byte buffers resp. the rest on Flush to streamWriter.Write; Go's map order = the order of the list.
+  Go's map order = the order of the list.
 -/
 namespace BfeVerif.C55
 
@@ -47,28 +47,6 @@ def encSize (n : Nat) : Bytes :=
 
 def encPair (k v : Bytes) : Bytes := encSize k.length ++ encSize v.length ++ k ++ v
 
-/-- `if m > maxWrite { v = v[:maxWrite-8-len(k)] }` -/
-def truncVal (k v : Bytes) : Bytes :=
-  if 8 + k.length + v.length > maxWrite then v.take (maxWrite - 8 - k.length) else v
-
-def truncPair (p : Bytes × Bytes) : Bytes × Bytes := (p.1, truncVal p.1 p.2)
-
-/-- the slice expression `v[:vl]` panics iff `vl < 0` (it cannot exceed `len(v)` here). -/
-def panics (k v : Bytes) : Bool :=
-  decide (8 + k.length + v.length > maxWrite) && decide (maxWrite < 8 + k.length)
-
-/-- the loop of `writePairs`; `nn` = the code's counter, `buf` = the bufio buffer, `out` = records already
-    handed to `streamWriter` (contents).  `none` = runtime panic. -/
-def writePairsLoop : List (Bytes × Bytes) → Nat → Bytes → List Bytes → Option (List Bytes)
-  | [], _, buf, out => some (out ++ streamWrite buf ++ [[]])
-  | (k, v) :: rest, nn, buf, out =>
-    if panics k v then none
-    else
-      let e := encPair k (truncVal k v)
-      if nn + e.length > maxWrite then writePairsLoop rest e.length e (out ++ streamWrite buf)
-      else writePairsLoop rest (nn + e.length) (buf ++ e) out
-
-
 /-! ### the bufio.Writer between writePairs / io.Copy and streamWriter, at the level of calls
 
   `bfe_bufio.NewWriterSize(streamWriter, maxWrite)`; the sink (`streamWriter.Write`) takes everything and never
@@ -94,25 +72,22 @@ def BW.writeLoop (direct : Bool) : Nat → BW → Bytes → BW × Bytes
     else (b, p)
 
 def BW.write (direct : Bool) (b : BW) (p : Bytes) : BW :=
-  let r := BW.writeLoop direct (p.length + 3) b p
+  let r := BW.writeLoop direct (2 * p.length + 3) b p
   { r.1 with buf := r.1.buf ++ r.2 }
 
 /-- the records a finished writer has produced: every call split by `streamWriter.Write`, then Close's empty record -/
 def BW.records (b : BW) : List Bytes := (b.flush.out.map streamWrite).flatten ++ [[]]
 
-/-- `writePairs`, statement by statement -/
-def writePairsBW : List (Bytes × Bytes) → Nat → BW → Option BW
-  | [], _, b => some b
+/-- `writePairs`, statement by statement (`nn` = the code's counter) -/
+def writePairsBW : List (Bytes × Bytes) → Nat → BW → BW
+  | [], _, b => b
   | (k, v) :: rest, nn, b =>
-    if panics k v then none
-    else
-      let v' := truncVal k v
-      let sz := encSize k.length ++ encSize v'.length
-      let m := sz.length + k.length + v'.length
-      let fl := decide (nn + m > maxWrite)
-      let b1 := if fl then b.flush else b
-      let nn1 := if fl then 0 else nn
-      writePairsBW rest (nn1 + m) (BW.write false (BW.write false (BW.write true b1 sz) k) v')
+    let sz := encSize k.length ++ encSize v.length
+    let m := sz.length + k.length + v.length
+    let fl := decide (nn + m > maxWrite)
+    let b1 := if fl then b.flush else b
+    let nn1 := if fl then 0 else nn
+    writePairsBW rest (nn1 + m) (BW.write false (BW.write false (BW.write true b1 sz) k) v)
 
 /-- `io.Copy(body, req)` when the source is an io.WriterTo: one `Write(body)` -/
 def bodyBW (body : Bytes) : BW := BW.write true ⟨[], []⟩ body
@@ -120,15 +95,15 @@ def bodyBW (body : Bytes) : BW := BW.write true ⟨[], []⟩ body
 /-- BEGIN_REQUEST body: role = 1 (responder), flags = 0 -/
 def beginBody : Bytes := [0, 1, 0, 0, 0, 0, 0, 0]
 
-/-- contents of the records `Do` writes, with their types. -/
-def requestRecords (pairs : List (Bytes × Bytes)) (body : Bytes) : Option (List (UInt8 × Bytes)) :=
-  match writePairsLoop pairs 0 [] [] with
-  | none => none
-  | some ps => some ((1, beginBody) :: ps.map (fun c => (4, c)) ++ (streamWrite body ++ [[]]).map (fun c => (5, c)))
+/-- contents of the records `Do` writes, with their types (the STDIN part: `streamWrite body ++ [[]]`, which is what
+    both io.Copy paths produce — `bodyBW_records` for the WriterTo path). -/
+def requestRecords (pairs : List (Bytes × Bytes)) (body : Bytes) : List (UInt8 × Bytes) :=
+  (1, beginBody) :: (writePairsBW pairs 0 ⟨[], []⟩).records.map (fun c => (4, c)) ++
+    (streamWrite body ++ [[]]).map (fun c => (5, c))
 
 /-- every byte `FCGIClient.Do` writes to the connection (request id 1). -/
-def encodeRequest (pairs : List (Bytes × Bytes)) (body : Bytes) : Option Bytes :=
-  (requestRecords pairs body).map fun rs => (rs.map fun r => frame r.1 1 r.2).flatten
+def encodeRequest (pairs : List (Bytes × Bytes)) (body : Bytes) : Bytes :=
+  ((requestRecords pairs body).map fun r => frame r.1 1 r.2).flatten
 
 /-! ### response side: `record.read` + `streamReader.Read` under `io.ReadAll` -/
 
